@@ -145,6 +145,10 @@ func (el *eventloop) read(c *conn) error {
 }
 
 func (el *eventloop) cread(c *conn) error {
+	if c.closing {
+		// the client has sent QUIT; whatever follows is ignored
+		return nil
+	}
 	for {
 		r, err := c.cread()
 		if err == codec.ErrInvalidResp {
@@ -167,14 +171,27 @@ func (el *eventloop) cread(c *conn) error {
 			// Encode data and try to write it back to the peer, this attempt is based on a fact:
 			// the peer socket waits for the response data after sending request data to the server,
 			// which makes the peer socket writable.
-			MsgPool.Put(r)
-			if _, err = c.write(out); err != nil {
-				return err
+			if c.inMsgQueue.Empty() {
+				MsgPool.Put(r)
+				if _, err = c.write(out); err != nil {
+					return err
+				}
+			} else {
+				// Earlier requests of this client are still waiting for redis: keep the reply in its
+				// place in the queue so that replies leave in request order.
+				r.RspBody = append(r.RspBody[:0], out...)
+				r.Done = true
+				c.EnqueueInMsg(r)
 			}
 		}
 		switch action {
 		case None:
 		case Close:
+			if c.opened && !c.inMsgQueue.Empty() {
+				// QUIT behind requests that are still in flight: close once their replies are written
+				c.closing = true
+				return nil
+			}
 			return el.closeConn(c, nil, ProxyEof)
 		case Shutdown:
 			return gerrors.ErrEngineShutdown
@@ -307,6 +324,9 @@ func (el *eventloop) flushDone(c *conn) (err error) {
 	// release Msg
 	for ; n > 0; n-- {
 		MsgPool.Put(c.dequeueInMsg())
+	}
+	if c.closing && c.inMsgQueue.Empty() {
+		return el.closeConn(c, nil, ProxyEof)
 	}
 	return nil
 }
